@@ -13,6 +13,7 @@
 #define H_LEAKCHECK() 0
 #endif
 #include <unistd.h>
+#include <fcntl.h>
 #include "esl_workqueue.h"
 #include "esl_threads.h"
 #include "hcommon.h"
@@ -402,6 +403,39 @@ static void op_wq(void)
     st = esl_workqueue_Reset(q);    h_out("%s | %s", h_status(st), wq_dump(q));
   } else if (strcmp(op, "complete") == 0) {
     st = esl_workqueue_Complete(q); h_out("%s | %s", h_status(st), wq_dump(q));
+  } else if (strcmp(op, "dump") == 0) {
+    /* esl_workqueue_Dump() printf()s to stdout: send fd 1 to a file for the duration of the call, then rebuild the observable state
+     * (counts, pending, the queued blocks in queue order) from the PRINTED text alone; it must be the state the structure holds */
+    char tmp[64], txt[8192], rs[300] = "", ws[300] = "", line[300]; int saved, fd, n = 0, rh = -1, rc = -1, wh = -1, wc = -1, pend = -99, i, k, ok = 1;
+    void *rp[40], *wp[40]; int nslot = 0; FILE *tf;
+    snprintf(tmp, sizeof(tmp), "c12_dump_%d.txt", (int) getpid());
+    fflush(stdout); saved = dup(1); fd = open(tmp, O_CREAT | O_WRONLY | O_TRUNC, 0644); dup2(fd, 1); close(fd);
+    st = esl_workqueue_Dump(q);
+    fflush(stdout); dup2(saved, 1); close(saved);
+    txt[0] = 0;
+    if ((tf = fopen(tmp, "r")) != NULL) {
+      while (fgets(line, sizeof(line), tf)) {
+        char a[64], b[64];
+        if      (sscanf(line, "Reader head: %d count: %d", &rh, &rc) == 2) n++;
+        else if (sscanf(line, "Worker head: %d count: %d", &wh, &wc) == 2) n++;
+        else if (sscanf(line, "Pending: %d", &pend) == 1) n++;
+        else if (sscanf(line, " %d: %63s %63s", &i, a, b) == 3 && nslot < 40 && i == nslot) {
+          rp[nslot] = NULL; wp[nslot] = NULL;
+          if (strcmp(a, "(nil)") != 0) sscanf(a, "%p", &rp[nslot]);
+          if (strcmp(b, "(nil)") != 0) sscanf(b, "%p", &wp[nslot]);
+          nslot++;
+        }
+      }
+      fclose(tf);
+    }
+    remove(tmp);
+    if (n != 3 || nslot != q->queueSize || rh != q->readerQueueHead || wh != q->workerQueueHead) ok = 0;
+    if (ok) {
+      strcpy(rs, rc > 0 ? "" : "-"); strcpy(ws, wc > 0 ? "" : "-");
+      for (k = 0; k < rc && k < nslot; k++) sprintf(rs + strlen(rs), "%s%d", k ? "," : "", blkid(rp[(rh + k) % nslot]));
+      for (k = 0; k < wc && k < nslot; k++) sprintf(ws + strlen(ws), "%s%d", k ? "," : "", blkid(wp[(wh + k) % nslot]));
+      h_out("%s | %d %d %d %s %s", h_status(st), rc, wc, pend, rs, ws);
+    } else h_out("dump-unreadable | %s", wq_dump(q));
   } else if (strcmp(op, "rupd") == 0 || strcmp(op, "wupd") == 0) {
     int isw = (op[0] == 'w');
     w   = isw ? (int) h_argi("w", 1) : 0;
@@ -1153,6 +1187,7 @@ static void op_dsqcut(void)
   DBARGS a; int st, i; char path[300], errpath[320]; const char *file = h_arg("file") ? h_arg("file") : "dsqs";
   long at = (long) h_argi("at", 0); int pert = (int) h_argi("pert", 0); uint64_t seed = (uint64_t) h_argi("seed", 1);
   int pfd[2]; pid_t pid; int wst = 0; char *out = NULL; size_t olen = 0, ocap = 0; char errtxt[2048]; int64_t en;
+  if (access("c12_deadlock_seen", F_OK) == 0) { h_out("fault deadlock-seen-earlier-in-this-run"); return; }   /* one hang per run is enough evidence */
   if (dbargs_parse(&a) != eslOK) { h_out("bad-op"); dbargs_free(&a); return; }
   if ((st = db_write(&a)) != eslOK) { h_out("write-%s", h_status(st)); db_remove(&a); dbargs_free(&a); return; }
   { int64_t n; unsigned char *b; FILE *fp;
@@ -1213,7 +1248,8 @@ static void op_dsqcut(void)
       else if (line[0] == 'E') sscanf(line + 2, "%31s %d %" SCNu64, endst, &nseq, &dig);
     }
     if (WIFSIGNALED(wst))                                   h_out("fault signal:%d", WTERMSIG(wst));
-    else if (WEXITSTATUS(wst) == 78)                        h_out("fault hang delivered=%s", nch ? chunks : "-");
+    else if (WEXITSTATUS(wst) == 78)                      { int fd = open("c12_deadlock_seen", O_CREAT | O_WRONLY, 0644); if (fd >= 0) close(fd);
+                                                            h_out("fault hang delivered=%s", nch ? chunks : "-"); }
     else if (WEXITSTATUS(wst) == 77) {
       const char *who = strstr(errtxt, "dsqdata loader thread failed") ? "loader" : strstr(errtxt, "dsqdata unpacker thread failed") ? "unpacker" : "other";
       const char *why = strstr(errtxt, "packet loader: expected") ? "packets" : strstr(errtxt, "metadata loader: expected") ? "metadata" : "-";
@@ -1261,6 +1297,11 @@ static void h_op(void)
   else if (strcmp(op, "unpackchunk") == 0) op_unpackchunk();
   else if (strcmp(op, "unpacksmem") == 0) op_unpacksmem();
   else if (strcmp(op, "wq") == 0)          op_wq();
+  else if (strcmp(op, "thcpu") == 0) {
+    /* esl_threads_CPUCount / esl_threads_GetCPUCount: at least one core, both agree, the cached value is stable */
+    int n = -7, st = esl_threads_CPUCount(&n), g1 = esl_threads_GetCPUCount(), g2 = esl_threads_GetCPUCount();
+    h_out("%s positive=%d get=%d stable=%d", h_status(st), n >= 1, g1 == n, g1 == g2);
+  }
   else if (strcmp(op, "dsqwrite") == 0)    op_dsqwrite();
   else if (strcmp(op, "dsqopen") == 0) {
     signal(SIGALRM, on_alarm); alarm(getenv("C12_WATCHDOG") ? (unsigned) atoi(getenv("C12_WATCHDOG")) : 45);
